@@ -438,6 +438,16 @@ def main():
             canary_info.append({"unit": unit, "contracted": len(cn), "failed_as_required": len(cn) - len(not_failing), "vacuous": not_failing})
             if not_failing:
                 undecided.append(f"vacuity: `ensures false` still verifies for {not_failing} in unit {unit} (contradictory precondition or unreachable exit)")
+    # mutant self-test (thorough): every registered breaking edit must be rejected by a named obligation
+    mutant_info = None
+    if tier == "thorough" and not undecided:
+        import mutant as mutant_mod
+        mutant_info = []
+        for unit in cfg.get("units", []) + cfg.get("mutant_units", []):
+            for o in mutant_mod.run_all(unit):
+                mutant_info.append({"unit": unit, "mutant": o["name"], "status": "killed" if o["status"] == "fail" else ("equivalent (survives, by design)" if o.get("equivalent") and o["status"] == "ok" else o["status"]), "killed_by": o.get("killed_by", [])[:3]})
+                if o["status"] == "ok" and not o.get("equivalent"):
+                    notes.append(f"STRENGTH WARNING: mutant `{o['name']}` of unit {unit} is not rejected by any obligation")
     # Kani
     kani_results = []
     for kc in cfg.get("kani", []):
@@ -535,6 +545,7 @@ def main():
         "bounded_stand_ins": bounded,
         "solver_ms": smt_ms,
         "canary": canary_info,
+        "mutants": mutant_info,
         "samples": samples or [{"note": "no samples"}],
         "explanation": cfg.get("explanation", ""),
         "undecided": undecided,
